@@ -124,10 +124,14 @@ func (c *ConfigManager) ReloadFromRaw(data []byte) (err error) {
 
 	info.ConfigHash = fmt.Sprint(hash)
 	info.Config.GlobalConfig.ExternalLabels = eLb
+	old := c.currentConfig
 	c.currentConfig = info
 
 	for _, f := range c.callbacks {
 		if err := f(c.currentConfig); err != nil {
+			// a configuration that could not be put in force is not the current one: its hash must not be
+			// reported, or the coordinator takes this shard for in sync and never sends the configuration again
+			c.currentConfig = old
 			return err
 		}
 	}
